@@ -795,7 +795,7 @@ class kMinPathError(pathmodel.AbstractPathModelDAG):
         for u, v, data in self.G.edges(data=True):
             if self.flow_attr in data and (u,v) not in self.edges_to_ignore:
                 if (
-                    abs(float(data[self.flow_attr]) - weight_from_paths[(u, v)]) * self.edge_error_scaling.get((u, v), 1)
+                    abs(float(data[self.flow_attr]) - weight_from_paths[(u, v)]) * float(self.edge_error_scaling.get((u, v), 1))
                     > tolerance * num_paths_on_edges[(u, v)] + slack_from_paths[(u, v)]
                 ):
                     utils.logger.debug(f"{__name__}: Solution: {self._solution}")
